@@ -118,6 +118,20 @@ async def check_tree(ctx, case):
         return
     if depth_of(spec) >= 3 or pruned:
         ctx.nontrivial([spec, sorted(asg.items()), soll])
+    if case["schedule_seed"] % 4 == 0:
+        # the same run with the library's own dictionary based evaluators (create_hardcoded_evaluators), as most users set it up
+        from vf import evalhelp as H
+        from ahbicht.validation.validation import validate_deep_anwendungshandbuch
+
+        cer = E.make_cer(asg, {k: True for k in POOLS.fc}, {k: "Hinweis " + k for k in POOLS.hint})
+        hout = await H.with_shipped_evaluators("hardcoded" if case["schedule_seed"] % 8 == 0 else "cer", cer, lambda: validate_deep_anwendungshandbuch(TB.build(spec), soll_is_required=soll))
+        ctx.evaluation()
+        ctx.count("runs_with_shipped_evaluators")
+        if hout[0] != "ok":
+            ctx.violation(f"validation-raises-{type(hout[1]).__name__}", f"{what} with the library's ready-made evaluators {describe(hout)[:300]}")
+            return
+        if not compare(ctx, what + " (ready-made evaluators of evaluator_factory)", TB.summarise(hout[1]), expected, case):
+            return
     # the segment-level entry point on a sub-tree (no parent status)
     rng = random.Random(case["schedule_seed"] + 1)
     levels = [n for n in nodes if n["k"] in ("G", "S")]
